@@ -84,6 +84,13 @@ pub fn judge(c: &Case, st: &mut Stats) -> Verdict {
     let data = bld::content(&c.val);
     let prefill = c.prefill();
     let fail = |kind: &str, exp: String, obs: String| Err(Fail::new(kind, shape(c), entry, exp, obs));
+    // a byte buffer of one of the listed sizes is also written while held as an array, a Vec, a box
+    if let Val::Bytes { len, seed } = &c.val {
+        if let Some(r) = holders_dispatch(*len, *seed, &prefill) {
+            st.class("byte-holders");
+            r?;
+        }
+    }
     let run = crate::engine::guard(|| {
         let mut w = Writer::from(prefill.clone());
         let r = bld::write_val(&c.val, &data, &mut w);
@@ -162,6 +169,68 @@ pub fn judge(c: &Case, st: &mut Stats) -> Verdict {
             Ok(())
         }
     }
+}
+
+/// A byte buffer of N bytes held in other ways than as a slice - a fixed-size array, a boxed array, a Vec, a boxed slice - and
+/// written by calling the trait method on the holder itself. Whatever the method call resolves to, the bytes appended and
+/// the refusal above 65535 bytes are those of the byte-slice encoding.
+fn holders<const N: usize>(seed: u32, prefill: &[u8]) -> Result<(), Fail> {
+    let bytes = fill(seed, N);
+    let mut arr = Box::new([0u8; N]);
+    arr.copy_from_slice(&bytes);
+    let vec: Vec<u8> = bytes.clone();
+    let boxed: Box<[u8]> = bytes.clone().into_boxed_slice();
+    let run = |name: &str, f: &dyn Fn(&mut Writer) -> std::io::Result<usize>, tb: &dyn Fn() -> std::io::Result<Vec<u8>>| -> Result<(), Fail> {
+        let shape = format!("{} of {} bytes, prefill {}", name, N, prefill.len());
+        let fail = |kind: &str, exp: String, obs: String| Err(Fail::new(format!("{}:{}", kind, name), &shape, "WriteToHeader::write_to / to_bytes on the holder", exp, obs));
+        let got = crate::engine::guard(|| {
+            let mut w = Writer::from(prefill.to_vec());
+            let r = f(&mut w);
+            (r.map_err(|e| format!("{:?}", e.kind())), w.finish())
+        });
+        let (r, out) = match got {
+            Ok(x) => x,
+            Err(p) => return fail("holder-panic", "returns".into(), format!("panic: {}", p)),
+        };
+        let t = crate::engine::guard(|| tb().map_err(|e| format!("{:?}", e.kind())));
+        if N > 65535 {
+            if r.is_ok() || out != prefill {
+                return fail("holder-oversize-not-refused-cleanly", "Err and the writer unchanged".into(), format!("{:?}, writer grew by {} bytes", r, out.len() as i64 - prefill.len() as i64));
+            }
+            if matches!(t, Ok(Ok(_))) {
+                return fail("holder-oversize-to_bytes", "to_bytes() Err".into(), "Ok".into());
+            }
+        } else if prefill.len() + N <= LIMIT {
+            let mut want = prefill.to_vec();
+            want.extend_from_slice(&bytes);
+            if r != Ok(N) || out != want {
+                return fail("holder-append", format!("Ok({}) and contents = prefill ++ the bytes", N), format!("{:?}, writer holds {} bytes", r, out.len()));
+            }
+            match t {
+                Ok(Ok(b)) if b == bytes => {}
+                other => return fail("holder-to_bytes", format!("to_bytes() == the {} bytes", N), imp::short(&format!("{:?}", other))),
+            }
+        }
+        Ok(())
+    };
+    run("[u8; N]", &|w| arr.write_to(w), &|| arr.to_bytes())?;
+    run("&[u8; N]", &|w| (&*arr).write_to(w), &|| (&*arr).to_bytes())?;
+    run("Vec<u8>", &|w| vec.write_to(w), &|| vec.to_bytes())?;
+    run("Box<[u8]>", &|w| boxed.write_to(w), &|| boxed.to_bytes())?;
+    run("&&[u8]", &|w| (&&bytes[..]).write_to(w), &|| (&&bytes[..]).to_bytes())?;
+    Ok(())
+}
+
+fn holders_dispatch(len: usize, seed: u32, prefill: &[u8]) -> Option<Result<(), Fail>> {
+    macro_rules! go {
+        ($($n:literal),*) => {
+            match len {
+                $($n => Some(holders::<$n>(seed, prefill)),)*
+                _ => None,
+            }
+        };
+    }
+    go!(0, 1, 2, 3, 4, 7, 8, 12, 16, 36, 108, 216, 255, 256, 257, 4096, 65534, 65535, 65536, 65537, 70000, 131072)
 }
 
 /// Several values written one after the other into the SAME writer (a refused value in between must leave it usable).
@@ -360,6 +429,22 @@ pub fn run(r: &mut Runner) -> &'static str {
         None
     };
     r.bulk("c20.sweep", Some("12 integer types x 8 extreme images x 2 prefills; 12 Type codes x 6 lengths; 256 TLV kind bytes x 3 lengths x 2 spellings; size boundaries 65534..70000 x 4 kinds x 3 prefills"), &work, &judge);
+    // byte buffers held as arrays, vectors and boxes, at the sizes around the limits
+    let hold = |shard: usize, _n: usize, st: &mut Stats, _stop: &AtomicBool| -> Option<(Case, Fail)> {
+        if shard != 0 {
+            return None;
+        }
+        for (pl, ps) in [(0usize, 0u32), (16, 5), (40, 9)] {
+            for n in [0usize, 1, 2, 3, 4, 7, 8, 12, 16, 36, 108, 216, 255, 256, 257, 4096, 65534, 65535, 65536, 65537, 70000, 131072] {
+                let c = Case { val: Val::Bytes { len: n, seed: n as u32 * 2 + 1 }, prefill_len: pl, prefill_seed: ps, head: None };
+                if let Err(f) = judge(&c, st) {
+                    return Some((c, f));
+                }
+            }
+        }
+        None
+    };
+    r.bulk("c20.holders", Some("byte buffers of 22 sizes (0..131072, both sides of 65535) held as [u8; N], &[u8; N], Vec<u8>, Box<[u8]> and &&[u8], into 3 writers"), &hold, &judge);
     // every value length in a contiguous range, for each kind that carries a length
     let top: usize = if r.quick() { 2200 } else { 65_537 };
     let lens = |shard: usize, nshards: usize, st: &mut Stats, stop: &AtomicBool| -> Option<(Case, Fail)> {
